@@ -62,7 +62,8 @@ def _decider(**facts):
     if c.op == 'sym' and c.args[-1] in ('generate_training_metrics', 'generate_fd_metrics') and 'metrics' in facts:
       return facts['metrics']
     return None
-  return decide
+  from ..lib import Decider
+  return Decider(extra=decide)       # the Decider also tries the mirrored / negated spelling of every comparison
 
 
 def run(ctx):
